@@ -249,7 +249,7 @@ def gen_reply(rng, i, j=None, hello=False, cls=None, kw=None):
 
 def wire_of(rep):
     c = rep['code'].encode('ascii')
-    ls = [l.encode('utf-8') for l in rep['lines']]
+    ls = rep['raw'] if rep.get('raw') else [l.encode('utf-8') for l in rep['lines']]
     return b''.join(c + b'-' + l + b'\r\n' for l in ls[:-1]) + c + b' ' + ls[-1] + b'\r\n'
 
 
@@ -515,11 +515,16 @@ def note_failure(ctx, key, case, what):
     clean = not any(p['expect'] == 'UnicodeEncodeError' for p in case['plan'])
     if key == 'c10:lmtp-data-before-flush':
         rank = 0 if clean else 1
+    elif key == 'c10:lmtp-data-after-bad-rcpt-reply':
+        rank = 1 if 'holds 0 slot' in what else 0
     else:
         rank = 0 if ' holds (' in what else (1 if 'consequence of' in what else 2)
     if case.get('kind') == 'count':
         size = (rank, len(case['ops']), 0, len(case['script']))
         pub = count_public(case)
+    elif case.get('kind') == 'bad':
+        size = (rank, 1 if case['lmtp'] else 0, len(case['positions']), len(case['ops']), 0 if case['seg'] == 'whole' else 1)
+        pub = bad_public(case)
     else:
         size = (rank, len(case['ops']), len(case['chunks']), len(case['script']))
         pub = public_case(case)
@@ -724,6 +729,8 @@ class DrivenSock(object):
             k = 1
         elif self.mode == 'lines':
             k = a.find(b'\n') + 1 or len(a)
+        elif self.mode == 'small':
+            k = self.rnd.randint(1, min(len(a), 7))
         else:
             k = self.rnd.randint(1, min(len(a), 700))
         k = min(k, n)
@@ -901,6 +908,292 @@ def model_final(out):
     return tuple(rs), model_trace([((2, 0), st)])[0][1]
 
 
+# ------------------------------------------------------------------ undecodable replies, conversation goes on
+# A reply whose text is not UTF-8 costs the call that reads it a BadReply - and nothing else: the
+# reply is consumed, its slot stays empty, every later Reply still gets its own reply.
+BAD_TEXTS = [b'Empf\xe4nger unbekannt',        # ISO-8859-1
+             b'caf\xc3',                        # truncated two-byte sequence
+             b'\x80abc', b'ok \xbf',            # lone continuation bytes
+             b'\xc0\xaf', b'\xe0\x80\xaf',       # overlongs
+             b'\xed\xa0\x80',                   # UTF-8 encoded surrogate
+             b'\xff', b'\xf8\x88\x80\x80\x80', b'\xe2\x82']
+
+
+def plan_bad(seed, lmtp, pipelining, nrcpt, positions):
+    """Reference semantics of the conversation (independent of the model): which reply each call
+    owns, which call reads which replies, which call raises BadReply.  One pass: the replies are
+    drawn while the calls are simulated."""
+    rng = random.Random(seed)
+    ops = []
+    if rng.random() < 0.5:
+        ops.append(dict(m='banner'))
+    ops.append(dict(m='hello', verb='lhlo' if lmtp else 'ehlo', arg='client.example.com'))
+    ops.append(dict(m='mailfrom', addr='sender@example.com', size=None, auth=None))
+    for k in range(nrcpt):
+        ops.append(dict(m='rcptto', addr='rcpt%d@example.org' % k))
+    ops += [dict(m='data'), dict(m='send_data', parts=[b'Subject: x\r\n\r\n', b'body\r\n']), dict(m='rset'),
+            dict(m='mailfrom', addr='again@example.com', size=None, auth=None), dict(m='rcptto', addr='last@example.org'),
+            dict(m='quit')]
+    script, plan, groups = [], [], []
+    owed, bad, popped, filled = [], set(), [], []
+    kind_of = {}
+    exts = set()
+    txn = []
+
+    def alloc(i, j=None, hello=False, cls=None, kw=None):
+        s_ = len(script)
+        r = gen_reply(rng, i, j, hello=hello, cls=cls, kw=kw)
+        if s_ in positions:
+            raw = [l.encode('utf-8') for l in r['lines']]
+            raw[rng.randrange(len(raw))] = rng.choice(BAD_TEXTS)
+            r['raw'] = raw
+            bad.add(s_)
+        script.append(r)
+        owed.append(s_)
+        kind_of[s_] = 'plain'
+        return s_
+
+    def flush():
+        while owed:
+            s_ = owed.pop(0)
+            popped.append(s_)
+            if s_ in bad:
+                return True
+            filled.append(s_)
+        return False
+
+    for i, op in enumerate(ops):
+        m = op['m']
+        p = dict(expect='reply', own=[], sent=True)
+        if lmtp and m == 'send_data':
+            if flush():
+                # raised before the content was sent while the server waits for content: a caller cannot go on
+                # with commands from here (they would be taken as message text); the conversation ends
+                p.update(expect='BadReply', sent=False, filled=list(filled), npopped=len(popped), owed=len(owed),
+                         kinds=dict(kind_of))
+                plan.append(p)
+                ops = ops[:i + 1]
+                break
+            elif any(si in bad for a, si in txn):
+                # HEAD: AttributeError on the recipient whose RCPT reply was a BadReply, after slots were queued
+                # for the accepted ones before it - known finding; the conversation is out of step from here on
+                p.update(expect='AttributeError', sent=False, filled=list(filled), npopped=len(popped), owed=len(owed),
+                         kinds=dict(kind_of))
+                plan.append(p)
+                ops = ops[:i + 1]
+                break
+            else:
+                acc = [(a, si) for a, si in txn if script[si]['code'][0] == '2']
+                p['accepted'] = [a for a, si in acc]
+                p['own'] = [alloc(i, j) for j in range(len(acc))]
+                groups.append(list(p['own']))
+                txn = []
+                p['expect'] = 'pairs'
+                if 'PIPELINING' not in exts and flush():
+                    p['expect'] = 'BadReply'
+        else:
+            hello = (m == 'hello')
+            own = alloc(i, hello=hello, cls=(3 if m == 'data' else (2 if hello else None)),
+                        kw=((['PIPELINING', '8BITMIME'] if pipelining else ['8BITMIME']) if hello else None))
+            p['own'] = [own]
+            if m in ('banner', 'hello'):
+                kind_of[own] = 'noesc'
+            groups.append([own])
+            must = m in ('banner', 'hello', 'data', 'rset', 'quit') or 'PIPELINING' not in exts
+            if must and flush():
+                p['expect'] = 'BadReply'
+            elif hello:
+                kind_of[own] = 'hello'
+                if script[own]['code'] == '250':
+                    exts = ext_names(script[own])
+                    if lmtp:
+                        txn = []
+            if p['expect'] == 'reply':
+                if m == 'rcptto' and lmtp:
+                    txn.append((op['addr'], own))
+                if m == 'rset' and lmtp:
+                    txn = []
+        p.update(filled=list(filled), npopped=len(popped), owed=len(owed), kinds=dict(kind_of))
+        plan.append(p)
+    return ops, script, plan, groups, sorted(bad)
+
+
+def bad_case(seed, lmtp, pipelining, seg, nrcpt, positions):
+    ops, script, plan, groups, bad = plan_bad(seed, lmtp, pipelining, nrcpt, set(positions))
+    return dict(kind='bad', seed=seed, lmtp=lmtp, pipelining=pipelining, seg=seg, nrcpt=nrcpt, positions=list(positions),
+                exts0=[], ops=ops, script=script, plan=plan, groups=groups, bad=bad, chunks=[])
+
+
+def bad_public(case):
+    return dict(kind='bad', seed=case['seed'], lmtp=case['lmtp'], pipelining=case['pipelining'], seg=case['seg'],
+                nrcpt=case['nrcpt'], positions=case['positions'])
+
+
+def run_bad(report, case, verbose=None):
+    """-> (ok, results, final snapshot, chunks handed out, calls executed)"""
+    ops, plan, script = case['ops'], case['plan'], case['script']
+    registry = []
+    ids = {}
+
+    class RecReply(Reply):
+        def __init__(self, *a, **k):
+            Reply.__init__(self, *a, **k)
+            ids[id(self)] = len(registry)
+            registry.append(self)
+
+    def idx(o):
+        return ids.get(id(o), 9999)
+
+    banner = bool(ops and ops[0]['m'] == 'banner')
+    groups = list(case['groups'])
+    if banner:
+        groups = groups       # the banner's group is the first one: released at connect
+    sock = DrivenSock(groups, script, case['seg'], random.Random(case['seed'] ^ 0x5bd1e995), banner)
+    wlen = [0]
+    for w in sock.wires:
+        wlen.append(wlen[-1] + len(w))
+    results = []
+    checked = set()
+    first_bad = None
+    ok = True
+
+    def fail(key, i, what):
+        report(key, case, '%s PIPELINING=%s, undecodable replies at %s, call %d (%s): %s' % (
+            'LMTP' if case['lmtp'] else 'SMTP', case['pipelining'], case['bad'], i, ops[i]['m'], what))
+        return False
+
+    saved = CM.Reply
+    CM.Reply = RecReply
+    executed = 0
+    try:
+        client = (LmtpClient if case['lmtp'] else Client)(sock, ('192.0.2.1', 25))
+        for i, op in enumerate(ops):
+            p = plan[i]
+            executed = i + 1
+            try:
+                res = call_op(client, op)
+                got = 'pairs' if isinstance(res, list) else 'reply'
+            except ReadPastOwed:
+                res, got = None, 'ReadPastOwed'
+            except BadReply as e:
+                res, got = None, 'BadReply'
+                exc_text = str(e)
+            except AttributeError as e:
+                res, got = None, 'AttributeError'
+            except Exception as e:
+                res, got = None, type(e).__name__
+            code = {'reply': 0, 'pairs': 1, 'BadReply': 2, 'AttributeError': 2}.get(got, 2)
+            results.append((0, idx(res)) if got == 'reply' else ((1, tuple((a, idx(o)) for a, o in res)) if got == 'pairs'
+                           else (2, {'BadReply': 4, 'AttributeError': 3}.get(got, 8))))
+            if got == 'ReadPastOwed':
+                ok = fail('c10:overread', i, 'the client called recv() while it was owed nothing (%d commands reached the server, '
+                          '%d replies released)' % (sock.commands, sock.released)); break
+            if got == 'AttributeError' and p['expect'] == 'AttributeError':
+                ok = fail('c10:lmtp-data-after-bad-rcpt-reply', i,
+                          'AttributeError (code is None): the RCPT reply of a recipient was a BadReply; reply_queue now holds %d '
+                          'slot(s) for which nothing was sent, the recipient list still has %d entries' % (
+                              len(client.reply_queue), len(client.rcpttos))); break
+            if got != p['expect']:
+                if got == 'BadReply' and first_bad is not None:
+                    ok = fail('c10:bad-reply-not-consumed', i,
+                              'raised BadReply again (%r) although the undecodable reply had already cost call %d its BadReply: '
+                              'it was not taken out of recv_buffer, so this call never gets its own reply (expected %s)' % (
+                                  exc_text[-60:], first_bad, p['expect']))
+                else:
+                    ok = fail('c10:outcome', i, 'expected %s, got %s' % (p['expect'], got))
+                break
+            if got == 'BadReply' and first_bad is None:
+                first_bad = i
+            if got == 'reply' and (idx(res) != p['own'][0] or res.command != expected_command(op, case['lmtp'])):
+                ok = fail('c10:command', i, 'returned object %d (%r), its own is %d' % (idx(res), res.command, p['own'][0])); break
+            if got == 'pairs':
+                if [a for a, _ in res] != p['accepted'] or [idx(o) for _, o in res] != p['own']:
+                    ok = fail('c10:lmtp-pairing', i, 'end-of-data replies %r, accepted recipients were %r (objects %r)' % (
+                        [(a, idx(o)) for a, o in res], p['accepted'], p['own'])); break
+            # every object: filled iff the reference says so, and then with its own reply
+            want_filled = set(p['filled'])
+            for j, o in enumerate(registry):
+                if (o.code is not None) != (j in want_filled):
+                    ok = fail('c10:mispaired' if o.code is not None else 'c10:not-filled', i,
+                              'reply object %d (%s) is %s, the server\'s reply %d %s' % (
+                                  j, o.command, 'filled with (%r, %r)' % (o.code, o.message) if o.code is not None else 'empty',
+                                  j, 'was undecodable / is not read yet' if j not in want_filled else
+                                  'is (%r, %r)' % (script[j]['code'], script[j]['lines'])))
+                    break
+                if o.code is not None and j not in checked:
+                    kind = p['kinds'].get(j, 'plain')
+                    want = ref_message(kind, script[j])
+                    if o.code != script[j]['code'] or o.message != want or TOKEN.findall(o.message or '') != own_tokens(kind, script[j]):
+                        if kind == 'hello' or j == len(registry) - 1 or True:
+                            ok = fail('c10:mispaired', i, 'reply object %d (%s) holds (%r, %r); the server answered it with (%r, %r)' % (
+                                j, o.command, o.code, o.message, script[j]['code'], want))
+                            break
+                    if kind != 'noesc' or j < len(registry):
+                        checked.add(j)
+            if not ok:
+                break
+            # a hello that returned is re-checked once (its message is replaced after the fill)
+            unread = len(client.io.recv_buffer) + len(sock.avail)
+            if unread != wlen[sock.released] - wlen[p['npopped']]:
+                if got == 'BadReply' and unread > wlen[sock.released] - wlen[p['npopped']]:
+                    ok = fail('c10:bad-reply-not-consumed', i,
+                              'BadReply raised for the undecodable reply %d, but %d bytes of it are still at the head of recv_buffer '
+                              '(%r...): every later call will meet it again instead of its own reply' % (
+                                  p['npopped'] - 1, unread - (wlen[sock.released] - wlen[p['npopped']]), client.io.recv_buffer[:40]))
+                else:
+                    ok = fail('c10:overread', i, '%d unread bytes, expected %d (replies released %d, consumed %d)' % (
+                        unread, wlen[sock.released] - wlen[p['npopped']], sock.released, p['npopped']))
+                break
+            if len(client.reply_queue) != p['owed']:
+                ok = fail('c10:orphan-slot', i, 'reply_queue holds %d objects, %d replies are owed' % (
+                    len(client.reply_queue), p['owed'])); break
+            if verbose:
+                verbose('call %d %-10s -> %-14s | filled %s, queue %d, unread %d' % (
+                    i, op['m'], got, sorted(want_filled), len(client.reply_queue), unread))
+        snap = state_snapshot(client, sock.sends, registry, idx, 0, 0)
+        return ok, tuple(results), snap, list(sock.chunks_out), executed
+    finally:
+        CM.Reply = saved
+
+
+def stream_bad(ctx):
+    rng = ctx.rng
+    cases = []
+    segs = ['whole', 'small', 'bytes', 'lines']
+    k = 0
+    for lmtp in (False, True):
+        for pipelining in (True, False):
+            nrcpt = 3
+            nev = 14                      # upper bound on the number of scripted replies of this conversation
+            singles = [[q] for q in range(nev)]
+            doubles = [sorted(rng.sample(range(nev), 2)) for _ in range(4 if ctx.quick else 12)]
+            for pos in singles + doubles:
+                for rep_ in range(1 if ctx.quick else 3):
+                    cases.append(bad_case(rng.randrange(1 << 31), lmtp, pipelining, segs[k % 4], nrcpt, pos))
+                    k += 1
+    good = []
+    for case in cases:
+        ok, results, snap, chunks, executed = run_bad(lambda key, c, what: note_failure(ctx, key, c, what), case)
+        ctx.evaluated(('bad', case['lmtp'], case['pipelining'], case['seg'], tuple(case['positions']), case['seed']),
+                      nontrivial=bool(case['bad']))
+        ctx.count('bad-reply:cases')
+        ctx.count('bad-reply:%d-undecodable' % len(case['bad']))
+        if any(p['expect'] == 'BadReply' for p in case['plan']):
+            ctx.count('bad-reply:continues-after-BadReply')
+        good.append((case, results, snap, chunks, executed))
+    # correspondence: the model on the chunks handed out ends in the same state (also after the known finding)
+    outs = ctx.model.batch('c10_final', [[1 if c['lmtp'] else 0, [], ch, [enc_op(o) for o in c['ops'][:ex]]]
+                                         for c, _, _, ch, ex in good])
+    for (case, results, snap, chunks, executed), out in zip(good, outs):
+        mres, msnap = model_final(out)
+        if (results, snap) != (mres, msnap):
+            diff = [j for j in range(len(snap)) if snap[j] != msnap[j]]
+            ctx.mismatch('bad-reply-final', bad_public(case),
+                         dict(results=results, fields_differing=diff, impl=[repr(snap[j])[:300] for j in diff]),
+                         dict(results=mres, model=[repr(msnap[j])[:300] for j in diff]))
+    ctx.sample(dict(kind='bad', texts=BAD_TEXTS[:4], example=bad_public(cases[0])), cap=6)
+
+
 def stream_count(ctx):
     rng = ctx.rng
     segs = ['whole', 'lines', 'random']
@@ -997,7 +1290,10 @@ def run(ctx):
         '{1,2,3,50,98,99,100,101,128,250,1000} x {Client, LmtpClient} x {PIPELINING on, off} against a command-driven server '
         '(a reply is readable only once its command has reached the socket; recv() while owed nothing = c10:overread), random '
         'reply classes/lines, segmentation whole/per line/per byte/random, final state compared with the model run on the chunks '
-        'handed out; malformed (correspondence only): a bad reply / truncation inserted at a random point. '
+        'handed out; undecodable replies: the same kind of conversation (two transactions) with the text of the reply at each '
+        'position (and some pairs of positions) replaced by ISO-8859-1 / truncated / lone-continuation / overlong / surrogate bytes, '
+        'the caller going on after the BadReply: judged against a reference of which call reads which reply (every other Reply '
+        'holds its own reply, the bad reply\'s slot stays empty, bytes consumed exactly, no recv() while owed nothing); malformed (correspondence only): a bad reply / truncation inserted at a random point. '
         'Compared after every call: every Reply object created so far (command, code, message, enhanced status code), reply_queue, '
         'send buffer, sendall() payloads, extension names, recv_buffer, chunks left, LMTP rcpttos, last_error. '
         'Non-trivial = at least one deferred (pipelined) reply, multi-line reply, encode failure or LMTP end-of-data reply.')
@@ -1006,6 +1302,7 @@ def run(ctx):
     stream_parse_string(ctx, 400 if ctx.quick else 5000)
     stream_targeted(ctx)
     stream_count(ctx)
+    stream_bad(ctx)
     if ctx.quick:
         stream_exhaustive(ctx, 3, 4, (5, 6), 1500)
     else:
@@ -1045,10 +1342,31 @@ def replay_count(ctx, c):
     return 0 if ok else 1
 
 
+def replay_bad(ctx, c):
+    case = bad_case(c['seed'], c['lmtp'], c['pipelining'], c['seg'], c['nrcpt'], c['positions'])
+    print('undecodable-reply case: %s, PIPELINING %s, segmentation %s, seed %d' % (
+        'LmtpClient' if case['lmtp'] else 'Client', 'on' if case['pipelining'] else 'off', case['seg'], case['seed']))
+    print('calls    :', [o['m'] for o in case['ops']])
+    for j, r in enumerate(case['script']):
+        print('reply %2d : %s %r%s' % (j, r['code'], r.get('raw') or r['lines'], '   <-- not UTF-8' if j in case['bad'] else ''))
+
+    def report(key, cs, what):
+        print('ORACLE   : %s: %s' % (key, what))
+    ok, results, snap, chunks, executed = run_bad(report, case, verbose=lambda s: print('  ' + s))
+    if ctx.model:
+        mres, msnap = model_final(ctx.model.call('c10_final', [1 if case['lmtp'] else 0, [], chunks,
+                                                                [enc_op(o) for o in case['ops'][:executed]]]))
+        print('model    : final state %s' % ('equal' if (results, snap) == (mres, msnap) else 'DIFFERS'))
+    print('oracle   :', 'holds' if ok else 'FAILS')
+    return 0 if ok else 1
+
+
 def replay(ctx, case):
     c = _unjson(case.get('case', case))
     if c.get('kind') == 'count':
         return replay_count(ctx, c)
+    if c.get('kind') == 'bad':
+        return replay_bad(ctx, c)
     print('client   :', 'LmtpClient' if c['lmtp'] else 'Client', 'extensions pre-set:', c['exts0'])
     print('server   :', [(r['code'], r['lines']) for r in c['script']], '+ extra', c['extra'])
     print('chunks   :', c['chunks'])
